@@ -321,6 +321,35 @@ pub fn probe(func: &str) -> bool {
             }
         }
     }
+    // ---- Number container: summing a sequence (no first/second-order mix) equals adding left to right from zero
+    {
+        use rateslib::dual::Number;
+        let vals = [2.5, -1.5, 0.0, 4.0];
+        for second in [false, true] {
+            for mask in 0..16usize {
+                let xs: Vec<Number> = vals.iter().enumerate().map(|(i, v)| {
+                    if (mask >> i) & 1 == 0 { Number::F64(*v) }
+                    else if second { Number::Dual2(Dual2::new(*v, vec![format!("s{}", i)])) } else { Number::Dual(Dual::new(*v, vec![format!("s{}", i)])) }
+                }).collect();
+                let inp = format!("sum of {:?} as Numbers, entries in mask {:#06b} {}", vals, mask, if second { "second order (own variables s<i>)" } else { "first order (own variables s<i>)" });
+                let got = catch(|| xs.clone().into_iter().sum::<Number>());
+                let names: Vec<String> = (0..4).map(|i| format!("s{}", i)).collect();
+                let (v, g): (f64, Vec<f64>) = match &got {
+                    Some(Number::F64(f)) => (*f, vec![0.0; 4]),
+                    Some(Number::Dual(d)) => (d.real(), d.gradient1(names.clone()).to_vec()),
+                    Some(Number::Dual2(d)) => (d.real(), d.gradient1(names.clone()).to_vec()),
+                    None => { report("probe", func, &inp, "PANIC", "a value", false); return true; }
+                };
+                let ev: f64 = vals.iter().sum();
+                let eg: Vec<f64> = (0..4).map(|i| if (mask >> i) & 1 == 1 { 1.0 } else { 0.0 }).collect();
+                let kind_ok = match (&got, mask, second) { (Some(Number::F64(_)), 0, _) => true, (Some(Number::Dual(_)), m, false) if m != 0 => true, (Some(Number::Dual2(_)), m, true) if m != 0 => true, _ => false };
+                if !close(v, ev) || !g.iter().zip(eg.iter()).all(|(a, b)| close(*a, *b)) || !kind_ok {
+                    report("probe", func, &inp, &format!("value {} gradient {:?} kind ok {}", v, g, kind_ok), &format!("value {} gradient {:?}", ev, eg), false);
+                    return true;
+                }
+            }
+        }
+    }
     // ---- Number container: Dual/Dual2 mixes must be refused (panic), both operand orders, every operator
     {
         use rateslib::dual::Number;
